@@ -4,6 +4,7 @@ package main
 //   case <id> cow(mem,mem): base = child 0, overlay = child 1
 import (
 	"fmt"
+	"math"
 	"path/filepath"
 	"sort"
 	"strconv"
@@ -160,6 +161,16 @@ func cowCase(c *Ctx, id, stack string, items []string, prop string) {
 			c.Oracle("FAIL %s failed-call-changed-view:%s step %d (%s -> %s): before=%s after=%s", id, opName(it), i, it, out, viewString(beforeView), viewString(spec))
 			continue
 		}
+		if f[2] == "OpenFile" && strings.HasPrefix(out, "handle") {
+			// an open that does not truncate changes nothing the view shows: if it copied the file
+			// up, the copy has all the bytes of the original
+			fl, _ := strconv.Atoi(f[4])
+			if e, ok := beforeView[normPath(string(unhx(f[3])))]; ok && !e.dir && fl&0x200 == 0 && viewString(spec) != viewString(beforeView) {
+				failed = true
+				c.Oracle("FAIL %s open-changed-view step %d (%s -> %s): a non-truncating open of an existing file changed the view: before=%.300s after=%.300s", id, i, it, out, viewString(beforeView), viewString(spec))
+				continue
+			}
+		}
 		if f[2] == "OpenFile" && out == "err:NotExist" {
 			// "shows, for each path, the overlay's entry or else the base's": a path the view holds is
 			// not reported missing by an open that does not ask for exclusivity
@@ -214,6 +225,30 @@ func cowCase(c *Ctx, id, stack string, items []string, prop string) {
 				failed = true
 				c.Oracle("FAIL %s listing:pages dir %s page size %d after step %d: got [%s] want [%s]", id, d, page, i, strings.Join(got, ","), strings.Join(want, ","))
 				break
+			}
+			// one entry, then "all the rest" asked for with the largest count there is
+			if fh3, err := in.Top.Fs.Open(d); err == nil {
+				var got2 []string
+				panicked := false
+				func() {
+					defer func() {
+						if recover() != nil {
+							panicked = true
+						}
+					}()
+					a, _ := fh3.Readdir(1)
+					b, _ := fh3.Readdir(math.MaxInt)
+					for _, x := range append(a, b...) {
+						got2 = append(got2, x.Name())
+					}
+				}()
+				fh3.Close()
+				sort.Strings(got2)
+				if panicked || strings.Join(got2, ",") != strings.Join(want, ",") {
+					failed = true
+					c.Oracle("FAIL %s listing:pages:huge-count dir %s after step %d: Readdir(1) then Readdir(MaxInt) gave [%s] panicked=%v want [%s]", id, d, i, strings.Join(got2, ","), panicked, strings.Join(want, ","))
+					break
+				}
 			}
 			// reading everything at once, then again: the second read finds nothing left
 			if fh2, err := in.Top.Fs.Open(d); err == nil {
@@ -386,6 +421,32 @@ func runCowProp(c *Ctx, prop string) {
 		}
 		c.Extra["flag_sweep"] = fmt.Sprintf("%d of 4096 combinations of 12 O_* bits", k)
 		runOSBase(c, "C05")
+	}
+	if prop == "C06" {
+		// copy-up of files whose sizes sit at the block sizes of the copy loop, with zero-filled tails
+		k := 0
+		for _, size := range []int{32767, 32768, 32769, 65536, 65537, 98304} {
+			for pat := 0; pat < 3; pat++ {
+				if c.Tier != "thorough" && (k%3 != 0) && size != 65536 {
+					k++
+					continue
+				}
+				data := make([]byte, size)
+				for q := range data {
+					switch {
+					case pat == 1 && q < size-32768, pat == 2:
+						data[q] = byte('a' + q%7)
+					}
+				}
+				items := []string{"0 0 Create 2f626967", "0 - HWrite 0 " + hx(data), "0 - HClose 0", "0 - Chtimes 2f626967 1000000000", "0 - Chtimes 2f 1000000000",
+					". 1 OpenFile 2f626967 2 420", ". - HWriteAt 1 58 0", ". - HClose 1", ". - Stat 2f626967", ". 2 Open 2f626967",
+					fmt.Sprintf(". - HReadAt 2 %d 0", size+10), ". - HClose 2"}
+				cowCase(c, fmt.Sprintf("big%d", k), "cow(mem,mem)", items, prop)
+				k++
+			}
+		}
+		runOSOverlay(c)
+		c.Extra["big_files"] = "copy-up of files of 32767..98304 bytes (zeros, zero tail, no zeros), one byte modified, read back"
 	}
 	for i := 0; i < n; i++ {
 		items := genCow(c.Rng.Fork(), prop == "C05" || i%5 == 4)
